@@ -900,7 +900,7 @@ fn parse_struct_literal_fields(
 
         let expr = parse_expression(tokens, id_gen, diagnostics);
 
-        if tokens.idx == start_idx {
+        if tokens.idx <= start_idx {
             // We haven't made forward progress, the syntax must be
             // very broken. Give up on this struct, consuming until
             // the closing brace.
@@ -1532,6 +1532,7 @@ fn parse_enum_body(
 ) -> Vec<VariantInfo> {
     let mut variants = vec![];
     loop {
+        let start_idx = tokens.idx;
         if peeked_symbol_is(tokens, "}") {
             break;
         }
@@ -1543,6 +1544,13 @@ fn parse_enum_body(
                 variant.comma = Some(token.position);
                 variants.push(variant);
                 tokens.pop();
+
+                // No progress: at the end of the file a sub-parser can leave
+                // the token stream where it was. Stop rather than loop
+                // forever.
+                if tokens.idx <= start_idx {
+                    break;
+                }
             } else if token.text == "}" {
                 variants.push(variant);
                 break;
@@ -1835,6 +1843,7 @@ fn parse_type_arguments(
 
     let mut args = vec![];
     let close_pos = loop {
+        let start_idx = tokens.idx;
         if let Some(token) = tokens.peek() {
             if token.text == ">" {
                 break token.position;
@@ -1847,6 +1856,13 @@ fn parse_type_arguments(
         if let Some(token) = tokens.peek() {
             if token.text == "," {
                 tokens.pop();
+
+                // No progress: at the end of the file a sub-parser can leave
+                // the token stream where it was. Stop rather than loop
+                // forever.
+                if tokens.idx <= start_idx {
+                    break token.position;
+                }
             } else if token.text == ">" {
                 break token.position;
             } else {
@@ -1899,6 +1915,7 @@ fn parse_type_params(
 
     let mut params = vec![];
     loop {
+        let start_idx = tokens.idx;
         if peeked_symbol_is(tokens, ">") {
             break;
         }
@@ -1910,6 +1927,13 @@ fn parse_type_params(
         if let Some(token) = tokens.peek() {
             if token.text == "," {
                 tokens.pop();
+
+                // No progress: at the end of the file a sub-parser can leave
+                // the token stream where it was. Stop rather than loop
+                // forever.
+                if tokens.idx <= start_idx {
+                    break;
+                }
             } else if token.text == ">" {
                 break;
             } else {
@@ -2000,6 +2024,13 @@ fn parse_tuple_type_hint(
             tokens.pop();
         }
 
+        // No progress: at the end of the file a sub-parser can leave
+        // the token stream where it was. Stop rather than loop
+        // forever.
+        if tokens.idx <= start_idx {
+            break;
+        }
+
         assert!(
             tokens.idx > start_idx,
             "The parser should always make forward progress."
@@ -2031,8 +2062,17 @@ fn parse_type_hint(
         return parse_tuple_type_hint(tokens, id_gen, diagnostics);
     }
 
+    let start_idx = tokens.idx;
     let sym = parse_type_symbol(tokens, id_gen, diagnostics);
-    let (args, close_pos) = parse_type_arguments(tokens, id_gen, diagnostics);
+
+    // If there was no type name, don't look for type arguments: at
+    // the end of the file the token stream can be back at the `<` of
+    // the enclosing type, and we would parse it again forever.
+    let (args, close_pos) = if tokens.idx <= start_idx {
+        (vec![], None)
+    } else {
+        parse_type_arguments(tokens, id_gen, diagnostics)
+    };
 
     let position = match close_pos {
         Some(close_pos) => Position::merge(&sym.position, &close_pos),
@@ -2188,6 +2228,13 @@ fn parse_parameters(
             break;
         }
 
+        // No progress: at the end of the file a sub-parser can leave
+        // the token stream where it was. Stop rather than loop
+        // forever.
+        if tokens.idx <= start_idx {
+            break;
+        }
+
         assert!(
             tokens.idx > start_idx,
             "The parser should always make forward progress."
@@ -2237,6 +2284,7 @@ fn parse_struct_fields(
 ) -> Vec<FieldInfo> {
     let mut fields = vec![];
     loop {
+        let start_idx = tokens.idx;
         if peeked_symbol_is(tokens, "}") {
             break;
         }
@@ -2269,6 +2317,13 @@ fn parse_struct_fields(
                 field.comma = Some(token.position);
                 fields.push(field);
                 tokens.pop();
+
+                // No progress: at the end of the file a sub-parser can leave
+                // the token stream where it was. Stop rather than loop
+                // forever.
+                if tokens.idx <= start_idx {
+                    break;
+                }
             } else if token.text == "}" {
                 fields.push(field);
                 break;
@@ -2819,6 +2874,13 @@ fn parse_let_destination(
 
             if !peeked_symbol_is(tokens, ")") {
                 require_token(tokens, diagnostics, ",");
+            }
+
+            // No progress: at the end of the file a sub-parser can leave
+            // the token stream where it was. Stop rather than loop
+            // forever.
+            if tokens.idx <= start_idx {
+                break;
             }
 
             assert!(
